@@ -379,9 +379,20 @@ theorem equal_species_hash_equal (a b : Sp) (ha : a ∈ allSpecies) (hb : b ∈ 
 /-- outside the registry the mixed comparison is *not* hash-consistent: an `Isotope` constructed with an element's
 name, symbol and weight compares equal to that `Element` but hashes a longer tuple (not an exported object; recorded so
 that the scope of `equal_species_hash_equal` is explicit) -/
-theorem mixed_eq_hash_witness :
-    ∃ (e : El) (i : Iso), pyEq cfg (.el e) (.iso i) = true ∧ hashBeq (spHash cfg (.el e)) (spHash cfg (.iso i)) = false :=
-  ⟨o_hydrogen, mkIsotope o_hydrogen.name o_hydrogen.sym o_hydrogen 1 (o_hydrogen.wNum, o_hydrogen.wDen), by decide +kernel⟩
+theorem mixed_eq_hash_witness : cfg.strictKind = false →
+    ∃ (e : El) (i : Iso), pyEq cfg (.el e) (.iso i) = true ∧ hashBeq (spHash cfg (.el e)) (spHash cfg (.iso i)) = false := by
+  first
+  | exact fun h => absurd h (by decide)
+  | exact fun _ => ⟨o_hydrogen, mkIsotope o_hydrogen.name o_hydrogen.sym o_hydrogen 1 (o_hydrogen.wNum, o_hydrogen.wDen),
+      by decide +kernel⟩
+
+/-- once `Element.__richcmp__` refuses objects of a different exact type (`cfg.strictKind`, notes/fixes/C19-1.diff) the
+gap closes: for **all** species, registered or constructed, mixed or not, `a == b` implies equal hash arguments.
+(Vacuous on the current tree, where `cfg.strictKind = false`; it becomes the operative theorem when the fix lands and
+the translator emits `strictKind := true`.) -/
+theorem all_species_eq_hash_if_strict (hs : cfg.strictKind = true) (a b : Sp) (h : pyEq cfg a b = true) :
+    spHash cfg a = spHash cfg b :=
+  pyEq_hash_strict hs hash_fields_subset.1 hash_fields_subset.2.1 h
 
 /-! ## lines as dictionary keys -/
 
@@ -452,9 +463,14 @@ example : pyEq cfg (.iso o_deuterium) (.iso (mkIsotope o_deuterium.base.name o_d
 
 /-- mixed pairs, all objects, either argument order: `==` holds exactly when the `Element` coincides with the
 inherited `Element` part of the `Isotope` -/
-theorem species_eq_mixed_iff (e : El) (i : Iso) :
+theorem species_eq_mixed_iff (hs : cfg.strictKind = false) (e : El) (i : Iso) :
     (pyEq cfg (.el e) (.iso i) = true ↔ e = i.base) ∧ (pyEq cfg (.iso i) (.el e) = true ↔ e = i.base) :=
-  pyEq_mixed_iff eq_fields_cover.1 e i
+  pyEq_mixed_iff hs eq_fields_cover.1 e i
+
+/-- with the exact-type guard: a mixed pair is never `==` -/
+theorem species_eq_mixed_strict (hs : cfg.strictKind = true) (e : El) (i : Iso) :
+    pyEq cfg (.el e) (.iso i) = false ∧ pyEq cfg (.iso i) (.el e) = false :=
+  pyEq_mixed_strict hs e i
 
 /-- **eq ⇒ hash, all objects, exact scope**: for species that compare equal the hash arguments coincide **iff** the
 two objects have the same exact type.  (⇐ is `element_eq_hash`/`isotope_eq_hash`; ⇒ says the mixed pair is the *only*
@@ -508,18 +524,33 @@ example : lineEq cfg (⟨.el o_carbon, 2, (1 : Nat)⟩ : Line Nat) ⟨.el o_carb
 
 /-- what is **not** true, stated so the scope is explicit: a line on an `Element` and a line on an `Isotope` carrying that
 element's name, symbol and weight are `==` but hash differently (constructed objects only; `line_eq_hash` covers the registry) -/
-theorem line_mixed_witness :
+theorem line_mixed_witness : cfg.strictKind = false →
     ∃ a b : Line Nat, lineEq cfg a b = true ∧ lineHash cfg a ≠ lineHash cfg b := by
-  refine ⟨⟨.el o_hydrogen, 0, 1⟩,
-    ⟨.iso (mkIsotope o_hydrogen.name o_hydrogen.sym o_hydrogen 1 (o_hydrogen.wNum, o_hydrogen.wDen)), 0, 1⟩,
-    by decide +kernel, fun h => ?_⟩
-  have h0 : ∀ x ∈ (lineHash cfg (⟨.el o_hydrogen, 0, 1⟩ : Line Nat)), x ∈ lineHash cfg (⟨.iso (mkIsotope o_hydrogen.name
-      o_hydrogen.sym o_hydrogen 1 (o_hydrogen.wNum, o_hydrogen.wDen)), 0, 1⟩ : Line Nat) := fun x hx => h ▸ hx
-  have h1 := h0 (.sp (spHash cfg (.el o_hydrogen))) (by simp [lineHash, cfg, lfVal])
-  simp only [lineHash, List.mem_map] at h1
-  obtain ⟨f, _, hf⟩ := h1
-  cases f <;> simp only [lfVal, LHVal.sp.injEq, reduceCtorEq] at hf
-  exact spHash_mixed_ne (c := cfg) (by decide) _ _ hf.symm
+  first
+  | exact fun h => absurd h (by decide)
+  | (intro _
+     refine ⟨⟨.el o_hydrogen, 0, 1⟩,
+       ⟨.iso (mkIsotope o_hydrogen.name o_hydrogen.sym o_hydrogen 1 (o_hydrogen.wNum, o_hydrogen.wDen)), 0, 1⟩,
+       by decide +kernel, fun h => ?_⟩
+     have h0 : ∀ x ∈ (lineHash cfg (⟨.el o_hydrogen, 0, 1⟩ : Line Nat)), x ∈ lineHash cfg (⟨.iso (mkIsotope o_hydrogen.name
+         o_hydrogen.sym o_hydrogen 1 (o_hydrogen.wNum, o_hydrogen.wDen)), 0, 1⟩ : Line Nat) := fun x hx => h ▸ hx
+     have h1 := h0 (.sp (spHash cfg (.el o_hydrogen))) (by simp [lineHash, cfg, lfVal])
+     simp only [lineHash, List.mem_map] at h1
+     obtain ⟨f, _, hf⟩ := h1
+     cases f <;> simp only [lfVal, LHVal.sp.injEq, reduceCtorEq] at hf
+     exact spHash_mixed_ne (c := cfg) (by decide) _ _ hf.symm)
+
+/-- with the exact-type guard: **all** lines, any species — `==` implies equal hashes -/
+theorem all_lines_eq_hash_if_strict (hs : cfg.strictKind = true) (a b : Line τ) (h : lineEq cfg a b = true) :
+    lineHash cfg a = lineHash cfg b := by
+  simp only [lineEq, List.all_eq_true] at h
+  have h1 := h .element (line_eq_fields _)
+  have h2 := h .charge (line_eq_fields _)
+  have h3 := h .transition (line_eq_fields _)
+  simp only [lfEq, decide_eq_true_eq] at h1 h2 h3
+  have hh := all_species_eq_hash_if_strict hs _ _ h1
+  refine List.map_congr_left fun f _ => ?_
+  cases f <;> simp [lfVal, hh, h2, h3]
 
 /-! ### (B) lookups as total decision functions -/
 
